@@ -167,6 +167,10 @@ func checkC07(p *Prog, r *Report) {
 	ruleMarkDiscipline(p, r, "R-M", "C07", "cisco", []string{"cmd.needed", "cmd.ready", "cmd.toDelete"}, 18)
 	ruleListMapsAccumulate(p, r)
 	rulePanosForeignVsys(p, r)
+	// the Cisco parser's line state decides which lines belong to a modelled command: lines of a command
+	// the tool does not model must not be attached to the previous modelled one (R-S, with the
+	// conditions under which each piece of state is replaced)
+	ruleStickyState(p, r, "C07", map[string]bool{"cisco": true}, 5)
 	r.Trusted = []string{"go/ssa, call graph", "the audited guard sets in tables/guards.tsv are the intended ones (each row carries its reason)"}
 	r.NotDec = "whole-device frame condition for arbitrary unmanaged content; value-dependent marking (which objects an unknown interface reaches); lines the parser does not model"
 }
